@@ -1151,3 +1151,97 @@ def r21_negation_needs_a_definition(ctx):
 
 
 RULES += [r21_negation_needs_a_definition]
+
+
+def r22_numeric_part_gets_no_boolean_constraint(ctx):
+    ctx.rule("C03.r22", "flat_boolean_numerical_domain::operator+=: the Boolean transfer functions never touch the numerical sub-domain, so a "
+             "constraint that mentions a Boolean variable and is stored THERE outlives every later redefinition of that Boolean. Every "
+             "constraint handed to m_product.second() must be known to mention no Boolean variable: the whole system only under a flag that "
+             "is cleared as soon as one constraint mentions one, a single constraint only where `any_of(vars, is_bool)` is known to be false", floor=2)
+    from ..match import writes_to, guard_truth
+    FB = "include/crab/domains/flat_boolean_domain.hpp"
+    fs = [f for f in ctx.db.fns(FB) if (f.get("cpk") or "").endswith("flat_boolean_numerical_domain") and f.get("body")
+          and f["name"] == "operator+=" and "linear_constraint_system" in (f.get("psig") or "")]
+    if not ctx.need(fs, "flat_boolean_numerical_domain::operator+=(linear_constraint_system)"):
+        return
+
+    def mentions_bool(n):
+        # +1: "some variable of the constraint is Boolean", -1: its negation
+        if not is_call(n, name=("any_of", "none_of")):
+            return 0
+        if not any(is_call(y, name="is_bool") for y in walk(n)):
+            return 0
+        return 1 if callee(n)["name"] == "any_of" else -1
+
+    seen = set()
+    for fn in fs:
+        if fn["line"] in seen:
+            continue
+        seen.add(fn["line"])
+        body = fn["body"]
+        decls = local_decls(body)
+        g = paths.guards(body)
+        pids = set(p["id"] for p in fn.get("params", []))
+        sinks = [c for c in walk(body) if is_call(c) and c.get("op") == "+=" and "o" in c
+                 and any(is_call(y, name="second") for y in walk(c["o"])) and c.get("a")]
+        if not sinks:
+            ctx.undecided("no `m_product.second() += ...` found", fn, body)
+            continue
+        for s in sinks:
+            a = strip(strip_move(s["a"][0]))
+            if not (isinstance(a, dict) and a.get("k") == "ref"):
+                ctx.undecided("the constraints handed to the numerical sub-domain are not a variable", fn, s)
+                continue
+            if a.get("id") in pids:
+                # the whole input: a flag that is cleared whenever a constraint mentions a Boolean
+                flags = [strip(cnd) for cnd, pol in g.get(id(s), ()) if not isinstance(cnd, tuple) and pol
+                         and isinstance(strip(cnd), dict) and strip(cnd).get("k") == "ref" and strip(cnd).get("id") in decls]
+                good = False
+                for fl in flags:
+                    d = decls[fl["id"]]
+                    init = strip(d.get("i")) if isinstance(d, dict) else None
+                    if not (isinstance(init, dict) and init.get("k") == "lit" and str(init.get("v")).lower() in ("true", "1")):
+                        continue
+                    ws = writes_to(body, fl["id"])
+                    clears = []
+                    for w in ws:
+                        common = set((id(c), p) for c, p in g.get(id(s), ()))   # e.g. the early return on a trivially true input
+                        gs = [(c, p) for c, p in g.get(id(w), ()) if not isinstance(c, tuple) and (id(c), p) not in common]
+                        # inside a loop over the input, under the atom and nothing else
+                        atoms = [guard_truth([(c, p)], mentions_bool, body) for c, p in gs]
+                        rhs = strip(w.get("R")) if w.get("k") == "asg" else None
+                        is_false = isinstance(rhs, dict) and rhs.get("k") == "lit" and str(rhs.get("v")).lower() in ("false", "0")
+                        if is_false and atoms and all(t is True for t in atoms):
+                            clears.append(w)
+                    in_loop_over_input = any(n.get("k") == "rangefor" and isinstance(strip(n.get("r")), dict) and strip(n.get("r")).get("id") in pids
+                                             and any(id(w) == id(y) for w in clears for y in walk(n.get("b"))) for n in walk(body))
+                    if clears and len(clears) == len(ws) and in_loop_over_input:
+                        good = True
+                if good:
+                    ctx.ok("the whole system is handed over only under the no-Boolean flag", fn, s)
+                else:
+                    ctx.bad("flat_boolean_numerical_domain::operator+= hands the whole input to the numerical sub-domain without a flag that is "
+                            "cleared for every constraint that mentions a Boolean variable", fn, s, sig="bool-cst-to-numdom:whole-system")
+                continue
+            if a.get("id") not in decls:
+                ctx.undecided("constraints handed to the numerical sub-domain come from a non-local", fn, s)
+                continue
+            d = decls[a["id"]]
+            init = strip(d.get("i")) if isinstance(d, dict) and d.get("i") is not None else None
+            if isinstance(init, dict) and not (init.get("k") == "ctor" and not init.get("a")):
+                ctx.bad("the system handed to the numerical sub-domain starts as a copy of something else", fn, s, sig="bool-cst-to-numdom:init")
+                continue
+            ws = [w for w in writes_to(body, a["id"])]
+            bad = [w for w in ws if guard_truth(g.get(id(w), ()), mentions_bool, body) is not False]
+            if not ws:
+                ctx.undecided("nothing is ever added to the system handed to the numerical sub-domain", fn, s)
+            elif bad:
+                ctx.bad("flat_boolean_numerical_domain::operator+= adds a constraint to the numerical sub-domain on a path where it may mention a "
+                        "Boolean variable (only `b == k` equalities are diverted): assume(b >= 1); assume(!c); b := c leaves b -> [1,+oo] in the "
+                        "numerical part, the value exports -b <= -1 although the only reachable state has b = 0", fn, bad[0],
+                        sig="bool-cst-to-numdom:per-constraint")
+            else:
+                ctx.ok("every constraint added mentions no Boolean variable", fn, s)
+
+
+RULES += [r22_numeric_part_gets_no_boolean_constraint]
